@@ -92,6 +92,20 @@ pub open spec fn circ_max_reg(c: Circuit) -> u32 {
     (if c.max_reg_count == 0 { 0usize } else { (c.max_reg_count - 1) as usize }) as u32
 }
 
+/// register r is written by an instruction before position w
+pub open spec fn written_before(c: Circuit, r: int, w: int) -> bool {
+    exists|j: int| 0 <= j < w && j < c.insts.len() && (#[trigger] c.insts@[j]).out.0 == r
+}
+
+pub open spec fn op_set_before(c: Circuit, op: Op, w: int) -> bool {
+    match op {
+        Op::Input(_) => true,
+        Op::Xor(Xor(x, y)) => written_before(c, x.0 as int, w) && written_before(c, y.0 as int, w),
+        Op::And(And(x, y)) => written_before(c, x.0 as int, w) && written_before(c, y.0 as int, w),
+        Op::Not(Not(x)) => written_before(c, x.0 as int, w),
+    }
+}
+
 pub open spec fn op_regs_ok(c: Circuit, op: Op) -> bool {
     match op {
         Op::Input(_) => true,
@@ -105,7 +119,8 @@ pub open spec fn op_regs_ok(c: Circuit, op: Op) -> bool {
 /// (register_circuit.rs:119-175): some party has an input; outputs non-empty and each <= max_reg;
 /// every instruction's destination and operands index the register file without panicking
 /// (`register_set[x]`, `register_set[inst.out] = true` with `register_set.len() == max_reg_count`),
-/// an Input instruction at position i writes register i.
+/// an Input instruction at position i writes register i; every operand register has been written by an
+/// earlier instruction (`register_set[x]`).
 pub open spec fn circ_validated(c: Circuit) -> bool {
     &&& exists|p: int| 0 <= p < c.input_regs.len() && c.input_regs@[p] != 0
     &&& c.output_regs.len() > 0
@@ -114,6 +129,7 @@ pub open spec fn circ_validated(c: Circuit) -> bool {
             &&& (#[trigger] c.insts@[w]).out.0 < c.max_reg_count
             &&& op_regs_ok(c, c.insts@[w].op)
             &&& (c.insts@[w].op is Input ==> c.insts@[w].out.0 == w)
+            &&& op_set_before(c, c.insts@[w].op, w)
         }
 }
 
